@@ -31,9 +31,9 @@ import (
 type dialRec struct {
 	addr    string
 	t       time.Time
-	ok      bool
-	conn    *faultconn.Conn
-	closedT atomic.Value // time.Time
+	ok      atomic.Bool                    // set by the dialer, which runs in the client's goroutines
+	conn    atomic.Pointer[faultconn.Conn] // likewise
+	closedT atomic.Value                   // time.Time
 	// cachedSameAddr is the number of region clients for this address in the
 	// client's connection cache at the moment of the dial (the one being
 	// dialled included); -1 if it could not be sampled
@@ -139,8 +139,8 @@ func trackingDialer(cl *sim.Cluster, dl *dialLog, fault func(addr string, n int)
 			f = fault(addr, n)
 		}
 		fc := faultconn.New(conn, f)
-		rec.conn = fc
-		rec.ok = true
+		rec.conn.Store(fc) // the judges may run while establishers are still dialling
+		rec.ok.Store(true)
 		return &closeNotify{fc, rec, deaf}, nil
 	}
 }
@@ -174,7 +174,7 @@ func (dl *dialLog) judge(c *fw.Ctx, id, descr string, faultFree, quiescent bool,
 				if !ct.IsZero() {
 					cl = fmt.Sprintf("closed after %v", ct.Sub(r.t).Round(10*time.Microsecond))
 				}
-				how += fmt.Sprintf(" [dial %d: +%v ok=%v cached-for-address=%d %s]", i+1, r.t.Sub(l[0].t).Round(10*time.Microsecond), r.ok, r.cachedSameAddr, cl)
+				how += fmt.Sprintf(" [dial %d: +%v ok=%v cached-for-address=%d %s]", i+1, r.t.Sub(l[0].t).Round(10*time.Microsecond), r.ok.Load(), r.cachedSameAddr, cl)
 			}
 			c.Violate(id, "conn:dialled-more-than-once", fmt.Sprintf("%s was dialled %d times in a fault-free run:%s: %s", addr, len(l), how, descr), descr)
 		}
@@ -183,7 +183,7 @@ func (dl *dialLog) judge(c *fw.Ctx, id, descr string, faultFree, quiescent bool,
 			// the client had removed from its cache (declared dead) by then
 			made, declared := 0, 0
 			for j := 0; j < i; j++ {
-				if l[j].ok {
+				if l[j].ok.Load() {
 					made++
 				}
 			}
@@ -204,7 +204,7 @@ func (dl *dialLog) judge(c *fw.Ctx, id, descr string, faultFree, quiescent bool,
 			}
 			for j := 0; j < i; j++ {
 				p := l[j]
-				if !p.ok {
+				if !p.ok.Load() {
 					continue // that dial failed: no connection came of it
 				}
 				ct, _ := p.closedT.Load().(time.Time)
@@ -222,7 +222,7 @@ func (dl *dialLog) judge(c *fw.Ctx, id, descr string, faultFree, quiescent bool,
 		if quiescent {
 			open := 0
 			for _, r := range l {
-				if r.ok {
+				if r.ok.Load() {
 					if ct, _ := r.closedT.Load().(time.Time); ct.IsZero() {
 						open++
 					}
@@ -241,8 +241,17 @@ func (dl *dialLog) judge(c *fw.Ctx, id, descr string, faultFree, quiescent bool,
 // side of it was killed or answered by an injected fault. A healthy connection
 // is reused, never dropped.
 func (dl *dialLog) judgeDropped(c *fw.Ctx, id, descr string, cl *sim.Cluster) {
+	type dropRec struct {
+		addr    string
+		conn    *faultconn.Conn
+		ok      bool
+		closedT *atomic.Value
+	}
 	dl.mu.Lock()
-	recs := append([]*dialRec{}, dl.recs...)
+	var recs []dropRec
+	for _, r := range dl.recs {
+		recs = append(recs, dropRec{r.addr, r.conn.Load(), r.ok.Load(), &r.closedT})
+	}
 	dl.mu.Unlock()
 	evs := cl.Log.Snapshot()
 	// (server, client's local address) -> server-side connection id; the local
